@@ -63,6 +63,7 @@ func loadAll(repo, verif string) *Gen {
 			fatal("%v", err)
 		}
 	}
+	g.Spec.SynthesizeHeapGhostAxioms()
 	g.ComputeEffects()
 	return g
 }
